@@ -98,15 +98,15 @@ Qed.
 (* a producer woken by a token is admitted exactly when its request now fits; otherwise it waits again *)
 Lemma relock_admitted_iff_l c s p s' z sz :
   blocking c = true ->
-  pget p (prods s) = Some (PLeftTok sz) ->
+  pget p (prods s) = Some (PLeftTok sz) -> find_id p (faulty s) = None ->
   step c s (LRelockTok p) = Some (s', z) ->
   ((z = c_enq \/ z = c_await) <-> size s + sz <= cap c) /\
   (z = c_blocked <-> size s + sz > cap c) /\
   ((z = c_enq \/ z = c_await) -> acc s' = acc s ++ [p] /\ size s' = size s + sz) /\
   (z = c_blocked -> acc s' = acc s /\ size s' = size s /\ pget p (prods s') = Some (PInSelect sz)).
 Proof.
-  intros Hb Hp H. revert Hb Hp. revert H.
-  step_cases; unfold c_full, c_toolarge, c_blocked, c_enq, c_await, c_zero, c_invalid in *; intros Hb Hp; inversion Hp; subst;
+  intros Hb Hp Hf H. revert Hb Hp Hf. revert H.
+  step_cases; unfold c_full, c_toolarge, c_blocked, c_enq, c_await, c_zero, c_invalid in *; intros Hb Hp Hf; try discriminate; inversion Hp; subst;
     repeat split; intros; ss; rewrite ?pget_pset_eq; try reflexivity; try lia; try discriminate; try tauto.
 Qed.
 
